@@ -410,4 +410,64 @@ func TestC07(t *testing.T) {
 		emit2("random", specs, g2.intn(3), opts, kind, other)
 	}
 	r2.Finish("the manager with cpumem and a second plugin answering from a table: no capacity on any node (empty answer), capacity on every node, on a random subset, or (ill-behaved) an entry with capacity 0; the capacity map is asked 8 times (merge order = Go map order), one case per distinct answer; Manager.Alloc probed with capacity-1, capacity, capacity+1 and 1 on every node (the second plugin admits a count iff it is within its capacity). non-trivial = a node is offered or the second plugin's answer is empty")
+
+	// ---- third stream: the plugin's own Total when the requested node names contain repeats ----
+	r3 := vh.New(t, "C07", "ptotal")
+	r3.Coq("From Verif Require Import Base.GoFloat Cpumem.Types Cobalt.Merge Cobalt.Capacity.\nClose Scope Z_scope.", "Capacity.ptcase", "Capacity.agree_pt", "Capacity.ok_pt")
+	g3 := gen{r3}
+	emit3 := func(kind string, specs []nodeSpec, pattern []int, opts resourcetypes.RawParams) {
+		guarded(r3, func() {
+			names := []string{}
+			for _, s := range specs {
+				n := w.addNode(s)
+				names = append(names, n)
+				defer w.mgr.RemoveNode(w.ctx, n) //nolint
+			}
+			asked := []string{}
+			for _, k := range pattern {
+				asked = append(asked, names[k%len(names)])
+			}
+			resp, err := w.pl.GetNodesDeployCapacity(w.ctx, asked, opts)
+			if err != nil {
+				checkInfra(err)
+				return
+			}
+			caps := []int64{}
+			for _, n := range names {
+				if v, ok := resp.NodeDeployCapacityMap[n]; ok {
+					caps = append(caps, int64(v.Capacity))
+				}
+			}
+			repeats := len(asked) - len(map[string]bool{})
+			seen := map[string]bool{}
+			for _, a := range asked {
+				seen[a] = true
+			}
+			repeats = len(asked) - len(seen)
+			r3.Count("kind=" + kind)
+			r3.Count(fmt.Sprintf("repeats=%d", repeats))
+			r3.Add(fmt.Sprintf("(mkPtCase %s %s)", vh.ZList(caps), vh.Z(int64(resp.Total))),
+				map[string]any{"asked": asked, "capacities": caps, "total": resp.Total, "request": opts},
+				map[string]any{"kind": kind, "repeats": repeats}, repeats > 0 && len(caps) > 0)
+		})
+	}
+	mem1000 := resourcetypes.RawParams{"memory-request": int64(1000), "memory-limit": int64(1000)}
+	emit3("corpus", []nodeSpec{plain, plain}, []int{0, 1, 0}, mem1000) // [a, b, a]: 4 + 4, not 12
+	emit3("corpus", []nodeSpec{plain}, []int{0, 0, 0}, mem1000)
+	emit3("corpus", []nodeSpec{plain, small}, []int{0, 1}, mem1000)
+	emit3("corpus", []nodeSpec{plain, small}, []int{1, 0, 1, 0}, resourcetypes.RawParams{"cpu-request": 0.5, "cpu-limit": 0.5}) // unlimited, repeated
+	n3 := r3.N(20, 300)
+	for i := 0; i < n3; i++ {
+		specs := []nodeSpec{}
+		for k := 1 + g3.intn(3); k > 0; k-- {
+			specs = append(specs, g3.nodeSpec(100, g3.chance(0.6)))
+		}
+		pattern := []int{}
+		for k := 1 + g3.intn(5); k > 0; k-- {
+			pattern = append(pattern, g3.intn(3))
+		}
+		opts, _ := g3.capRequest()
+		emit3("random", specs, pattern, opts)
+	}
+	r3.Finish("Plugin.GetNodesDeployCapacity of cpumem called with lists of 1-5 node names over 1-3 nodes, with repeats ([a,b,a], [a,a,a], ...): capacities of the returned map and the returned Total. non-trivial = a name is repeated and a node is offered")
 }
